@@ -22,6 +22,10 @@ class AbstractDenseTimeOnlineInterpreter(AbstractOnlineInterpreter, DenseTimeInt
     def reset(self):
         # the dense-time operations only set their state up when they are constructed: start again from fresh ones
         self.set_ast(self.ast)
+
+        # forget the input values supplied before the reset
+        for var in self.ast.free_vars:
+            self.ast.var_object_dict[var] = self.ast.create_var_from_name(var)
         return
 
     #input format
